@@ -597,6 +597,17 @@ func (p *Path) checkNeg(neg *Term, wantModel bool) (string, map[string]*Term, in
 		p.eng.note("solver-error", r)
 		r = "unknown"
 	}
+	if r == "unknown" {
+		// second opinion from z3 5.1 (the two versions have different strengths on nonlinear integer arithmetic)
+		if p.w.one2 == nil {
+			p.w.one2 = NewSolver("z3-new")
+		}
+		r2, m2 := p.w.one2.CheckOnce(as, to, wantModel)
+		if r2 == "sat" || r2 == "unsat" {
+			atomic.AddInt64(&statFallback, 1)
+			return r2, m2, time.Since(t0).Milliseconds()
+		}
+	}
 	if p.eng.cfg.CrossCheck && p.w.one2 != nil && (r == "sat" || r == "unsat") {
 		r2, _ := p.w.one2.CheckOnce(as, to, false)
 		if (r2 == "sat" || r2 == "unsat") && r2 != r {
@@ -661,6 +672,7 @@ func (p *Path) assertTerm(c *Term, label string) {
 
 var dumpCounter int64
 var statModelHits int64
+var statFallback int64
 
 func (p *Path) dumpQuery(o *Obligation, neg *Term) {
 	if p.eng.cfg.DumpDir == "" {
@@ -761,6 +773,7 @@ func (e *Engine) RunHarness(fn *ssa.Function) {
 					w.one2.Close()
 				}
 			}()
+			_ = id
 			for {
 				e.mu.Lock()
 				for len(e.queue) == 0 && e.active > 0 {
